@@ -802,56 +802,45 @@ Proof.
 Qed.
 
 (* ------------------------------------------------------------------ *)
-(* routing glue: a routing history acts on the accessor exactly as its  *)
-(* projection (Req/Resp of a transaction = Get of its transaction id)    *)
+(* every object a look-up hands out was installed: it is the initial one or *)
+(* the data of a successful update                                          *)
 
-Lemma racc_step s a : acc (fst (rstep s a)) = fst (step (acc s) (proj a)).
-Proof.
-  destruct a as [a|id seq now|id seq status now]; cbn [rstep proj].
-  - destruct (step (acc s) a) as [s' o]. reflexivity.
-  - rewrite step_get. reflexivity.
-  - rewrite step_get. destruct (get (acc s) id now) as [s' o].
-    destruct (dispatch_resp (alive s) id seq status (o_data o)). reflexivity.
-Qed.
+Lemma supplied_cons a h : supplied (a :: h) =
+  match a with Update d _ => [d] | _ => [] end ++ supplied h.
+Proof. reflexivity. Qed.
 
-Lemma racc_after h : forall s, acc (rafter s h) = after (acc s) (map proj h).
+Lemma served_in h : forall (P : Z -> Prop) s,
+  (forall v d, lookup v (vers s) = Some d -> P d) ->
+  (forall d, In d (supplied h) -> P d) ->
+  forall o d, In o (outs s h) -> o_data o = Some d -> P d.
 Proof.
-  induction h as [|a h IH]; intros s; [reflexivity|].
-  change (rafter s (a :: h)) with (rafter (fst (rstep s a)) h).
-  rewrite IH, racc_step. reflexivity.
-Qed.
-
-Lemma rstep_resp s id seq status now :
-  snd (rstep s (Resp id seq status now)) =
-  snd (dispatch_resp (alive s) id seq status (o_data (snd (get (acc s) id now)))).
-Proof.
-  cbn [rstep]. destruct (get (acc s) id now) as [s' o]. cbn [snd].
-  destruct (dispatch_resp (alive s) id seq status (o_data o)). reflexivity.
-Qed.
-
-Lemma response_uses_request_version d0 pre id seq t0 mid seq' status t :
-  monotone (map proj (pre ++ Req id seq t0 :: mid ++ [Resp id seq' status t])) ->
-  lookup id (pins (acc (rafter (rinit d0) pre))) = None ->
-  t <= t0 + ttl ->
-  let s1 := rafter (rinit d0) pre in
-  let s3 := rafter (fst (rstep s1 (Req id seq t0))) mid in
-  let D := last_data d0 (map proj pre) in
-  snd (get (acc s3) id t)
-    = {| o_ver := cur (acc s1); o_data := Some D; o_fallback := false |} /\
-  snd (rstep s3 (Resp id seq' status t))
-    = snd (dispatch_resp (alive s3) id seq' status (Some D)).
-Proof.
-  intros M P Ht s1 s3 D.
-  rewrite map_app in M. cbn [map proj] in M. rewrite map_app in M. cbn [map proj] in M.
-  assert (acc s1 = after (init d0) (map proj pre)) as E1.
-  { unfold s1. rewrite racc_after. reflexivity. }
-  assert (acc s3 = after (fst (get (acc s1) id t0)) (map proj mid)) as E3.
-  { unfold s3. rewrite racc_after, racc_step. cbn [proj]. rewrite step_get. reflexivity. }
-  fold s1 in P. rewrite E1 in P.
-  destruct (pinned_monotone d0 (map proj pre) id t0 (map proj mid) t M P Ht) as [H2 H1].
-  cbn zeta in H1, H2. rewrite <- E1 in H1, H2. rewrite <- E3 in H2.
-  assert (snd (get (acc s3) id t)
-          = {| o_ver := cur (acc s1); o_data := Some D; o_fallback := false |}) as G.
-  { rewrite H2, H1. reflexivity. }
-  split; [exact G|]. rewrite rstep_resp, G. reflexivity.
+  induction h as [|a h IH]; intros P s Hs Hsup o d Hin Hd; [destruct Hin|].
+  cbn [outs] in Hin.
+  assert (forall v d, lookup v (vers (fst (step s a))) = Some d -> P d) as Hs'.
+  { intros v d' L. destruct a as [t now|d2 now|now|now|now].
+    - rewrite step_get, get_fst in L. unfold pin in L.
+      destruct (lookup t (pins s)); exact (Hs _ _ L).
+    - cbn [step fst update vers] in L. destruct (Z.eq_dec v (cur s + 1)) as [->|N].
+      + rewrite lookup_set_eq in L. inversion L; subst. apply Hsup. left. reflexivity.
+      + rewrite lookup_set_neq in L by exact N. exact (Hs _ _ L).
+    - exact (Hs _ _ L).
+    - cbn [step fst] in L. unfold vac_txn in L. destruct (vacuum _ _ _). exact (Hs _ _ L).
+    - cbn [step fst] in L. unfold vac_ver in L.
+      destruct (vacuum now (verQ s) (vers s)) as [q m] eqn:E. cbn [vers] in L.
+      destruct (vacuum_lookup _ _ _ _ _ v E) as [H|H]; [congruence|].
+      rewrite H in L. exact (Hs _ _ L). }
+  assert (forall d, In d (supplied h) -> P d) as Hsup'.
+  { intros d' H. apply Hsup. rewrite supplied_cons. apply in_or_app. right. exact H. }
+  destruct (snd (step s a)) as [x|] eqn:Eo.
+  - destruct Hin as [<-|Hin]; [|exact (IH P _ Hs' Hsup' _ _ Hin Hd)].
+    destruct a as [t now|d2 now|now|now|now]; try discriminate Eo.
+    cbn [step] in Eo. destruct (get s t now) as [s1 o1] eqn:G. cbn [snd] in Eo.
+    inversion Eo; subst o1. clear Eo. unfold get in G.
+    destruct (pin s t now) as [s2 v] eqn:Pn.
+    assert (vers s2 = vers s) as Ev.
+    { unfold pin in Pn. destruct (lookup t (pins s)); inversion Pn; reflexivity. }
+    destruct (lookup v (vers s2)) eqn:L; inversion G; subst; cbn [o_data] in Hd.
+    + inversion Hd; subst. rewrite Ev in L. exact (Hs _ _ L).
+    + rewrite Ev in Hd. exact (Hs _ _ Hd).
+  - exact (IH P _ Hs' Hsup' _ _ Hin Hd).
 Qed.
